@@ -144,6 +144,29 @@ func applyEvil(r *Run, o *stubOrigin, kind string) {
 					_ = i
 				}
 			}
+		case "empty-fragments":
+			// many fragments per segment, so that some fragments have no unit of the sparser track(s): their
+			// traf is kept, with an empty trun
+			if st.container == "fmp4" {
+				st.emptyTrafs = true
+				for _, sg := range st.segs {
+					sg.frags = Pick(T, 6, 12, 20)
+				}
+				if T.Chance(1, 2) && len(st.tracks) > 0 {
+					// the last fragment-worth of units of a track is removed from one segment
+					t := st.tracks[T.Intn(len(st.tracks))]
+					k := T.Intn(len(st.segs))
+					n := 0
+					for _, u := range t.units {
+						if u.seg == k {
+							n++
+							if n%3 == 0 {
+								u.seg = -1
+							}
+						}
+					}
+				}
+			}
 		case "rendition-two-tracks":
 			if si > 0 && st.container == "fmp4" && len(st.tracks) == 1 {
 				cp := *st.tracks[0]
@@ -387,7 +410,7 @@ func scC13(spot bool) Scenario {
 		evil := "none"
 		if !spot || T.Chance(1, 3) {
 			evil = Pick(T, "unsupported-codec-extra", "unsupported-codec-extra", "unsupported-codec-only", "unsupported-codec-first",
-				"track-id-permutation", "no-leading-data", "many-tracks", "huge-times", "mixed-containers", "rendition-two-tracks", "audio-group-missing")
+				"track-id-permutation", "no-leading-data", "many-tracks", "huge-times", "mixed-containers", "rendition-two-tracks", "audio-group-missing", "empty-fragments", "empty-fragments")
 			applyEvil(r, o, evil)
 		}
 		// byte-level damage at chosen request positions
@@ -463,8 +486,9 @@ func scC13(spot bool) Scenario {
 }
 
 func init() {
-	register(&PropDef{ID: "C13", Quick: 3000, Thorough: 400000, Profiles: []ProfileDef{
+	register(&PropDef{ID: "C13", Quick: 3200, Thorough: 400000, Profiles: []ProfileDef{
 		{Name: "twin", Share: 1, Sc: scC13(false)},
 		{Name: "spot", Share: 2, Sc: scC13(true)},
+		{Name: "muxer-spot", Share: 1, Sc: scC13Muxer},
 	}})
 }
